@@ -167,6 +167,25 @@ def c06_definition(entry, name, fields):
     return out
 
 
+def c06_nofields(entry, name):
+    """a descriptor frame / JSON descriptor line whose field list is nil / null"""
+    from flow.record.jsonpacker import JsonRecordPacker
+    from flow.record.packer import RecordPacker
+
+    try:
+        if entry == "stream":
+            import msgpack
+
+            blob = msgpack.packb(msgpack.ExtType(14, msgpack.packb((2, (name, None)), use_bin_type=True)), use_bin_type=True)
+            d = RecordPacker().unpack(blob)
+        else:
+            d = JsonRecordPacker().unpack(json.dumps({"_type": "recorddescriptor", "_data": [name, None]}))
+    except Exception as e:
+        return {"violates": False, "outcome": f"rejected: {type(e).__name__}"}
+    bad = "\n" in name or d.name != name
+    return {"violates": bad, "detail": f"a definition without a field list whose name text is {name!r} was accepted as the type {d.name!r} with the fields {d.get_field_tuples()!r}" if bad else None}
+
+
 def c06_history(legit, crafted):
     """a stream whose second descriptor frame has the same name and unseparated field text as the first (legitimate) one but other fields / types"""
     import struct
@@ -233,4 +252,4 @@ def c06_hostile(seed, n):
     return {"violates": False, "cases": cases}
 
 
-CALLS = {"c06_history": c06_history, "c06_eval": c06_eval, "c06_field_name": c06_field_name, "c06_fieldtype": c06_fieldtype, "c06_definition": c06_definition, "c06_definition_literal": c06_definition_literal, "c06_hostile": c06_hostile}
+CALLS = {"c06_nofields": c06_nofields, "c06_history": c06_history, "c06_eval": c06_eval, "c06_field_name": c06_field_name, "c06_fieldtype": c06_fieldtype, "c06_definition": c06_definition, "c06_definition_literal": c06_definition_literal, "c06_hostile": c06_hostile}
